@@ -23,7 +23,10 @@ TRUSTED = ["os.walk / os.unlink (file tree supplied to the model by the harness)
 
 FILE_POOL = ["a.py", "a.pyc", "a.pyo", "b.pyc", "c.pyo", "d.py", "x.pyc.bak", ".pyc", "pyc", "X.PYC", "e.pyo~", "f.txt",
              "__init__.py", "__init__.pyc", "g.PY", "h.pyc", "h.py", ".py", "tests.pyc", "mod.pyo", "mod.py", "ä.pyc"]
-DIR_POOL = ["pkg", "sub", "__pycache__", ".git", ".svn", "CVS", "_darcs", "not-ident", "node_modules", "deep", "x.y", "Ünï"]
+DIR_POOL = ["pkg", "sub", "__pycache__", ".git", ".svn", "CVS", "_darcs", "not-ident", "node_modules", "deep", "x.y", "Ünï",
+            "git", "svn", ".tox", "tox", "arch-ids", ".arch-ids", "{arch}"]
+# the documented defaults of --ignore_dir (cross-checked with the argparse default regenerated into Facts)
+DEFAULT_IGNORE = [".git", ".svn", "CVS", "{arch}", ".arch-ids", "_darcs"]
 
 
 def gen_tree(rng, depth):
@@ -104,7 +107,7 @@ def run(ctx):
             roots.append(roots[0])
         keep = rng.random() < 0.15
         usec = rng.random() < 0.15
-        extra_ignore = ["deep"] if rng.random() < 0.2 else []
+        extra_ignore = rng.choice([["deep"], [".tox"], ["deep", "sub"]]) if rng.random() < 0.3 else []
         cases.append((tree, roots, keep, usec, extra_ignore, i % 10 == 0))
     queries = []
     reals = []
@@ -132,7 +135,13 @@ def run(ctx):
                 remove_stale_bytecode(options)
         after = snapshot(d)
         with contextlib.redirect_stdout(io.StringIO()):
-            ignore = sorted(get_options(list(args), []).ignore_dir)
+            real_ignore = sorted(get_options(list(args), []).ignore_dir)
+        # the ignore set of the statement: the documented defaults plus the names given, as typed
+        ignore = sorted(set(DEFAULT_IGNORE) | set(extra_ignore))
+        if real_ignore != ignore:
+            ctx.violation("--ignore_dir %r gives options.ignore_dir = %r, expected the defaults plus the given names %r"
+                          % (extra_ignore, real_ignore, ignore), {"args": args[1:], "real": real_ignore},
+                          signature="C15:ignore-set")
         shutil.rmtree(d, ignore_errors=True)
         reals.append((before, after, ignore))
         queries.append({"op": "bytecode", "keep": keep, "usecompiled": usec,
